@@ -187,7 +187,7 @@ def ensure_facts(config="workspace", extra_args=None):
             json.dump(meta, fh)
         info.update(meta)
         info["cached"] = False
-        _prune(facts_root, 6)
+        _prune(facts_root, 12)
         return fdir, info
     finally:
         fcntl.flock(lock, fcntl.LOCK_UN)
